@@ -106,5 +106,7 @@ func hashScripts() [][][]string {
 		// (was: a negative count panicked in rand.Intn(0))
 		{{"hset", "k1", "f1", "a", "f2", "b"}, {"hdel", "k1", "f1", "f1", "f2"}, {"hrandfield", "k1", "-3"}, {"hrandfield", "k1", "-1", "withvalues"},
 			{"hrandfield", "k1", "2"}, {"hrandfield", "k1"}, {"hlen", "k1"}},
+		// HSET on an existing hash answers the number of fields it names (was: the size of the hash afterwards)
+		{{"hset", "k1", "f1", "v1"}, {"hset", "k1", "f3", ""}, {"hset", "k1", "f1", "x", "f2", "y", "f3", "z"}, {"hset", "k1", "f1", "a", "f1", "b"}, {"hlen", "k1"}},
 	}
 }
